@@ -59,9 +59,17 @@ func (r *vreader) Read(p []byte) (int, error) {
 	return n, nil
 }
 
-type vseeker struct{ *vreader }
+type vseeker struct {
+	*vreader
+	// failSeek: every Seek fails, returning failRet (-1 or 0) and an error wrapping the injected cause
+	failSeek bool
+	failRet  int64
+}
 
 func (s vseeker) Seek(offset int64, whence int) (int64, error) {
+	if s.failSeek {
+		return s.failRet, fmt.Errorf("seek failed: %w", errInjected)
+	}
 	switch whence {
 	case io.SeekStart:
 		s.pos = int(offset)
@@ -190,7 +198,11 @@ func init() {
 		}
 		switch kind {
 		case "seek":
-			rd = vseeker{vr}
+			rd = vseeker{vreader: vr}
+		case "seekfail-1":
+			rd = vseeker{vreader: vr, failSeek: true, failRet: -1}
+		case "seekfail0":
+			rd = vseeker{vreader: vr, failSeek: true, failRet: 0}
 		case "bufio":
 			rd = bufio.NewReader(vr)
 		case "bufio64":
